@@ -189,6 +189,11 @@ EffInsert(c, n, i, t) ==
 EffRemoveFrom(c, n, t) ==
     IF t \in Ran(c.ch[n]) THEN {[c EXCEPT !.ch = DropEverywhere(c.ch, {t})]} ELSE {c}
 
+(* children.remove_all(): without a filter every listed task goes, with the filter prio = k the listed tasks  *)
+(* whose attribute prio is k (key: 0 = no filter, k+1 = filter on prio k); each takes its subtree along           *)
+RemoveAllSet(c, n, key) == {t \in Ran(c.ch[n]) : key = 0 \/ Prio[t] = key - 1}
+EffRemoveAll(c, n, key) == {[c EXCEPT !.ch = DropEverywhere(c.ch, RemoveAllSet(c, n, key))]}
+
 EffMove(c, n, ts0, before, after) ==
     LET ts   == DedupFirst(ts0)
         cur  == c.ch[n]
@@ -285,6 +290,7 @@ Effects(c, a) ==
       [] a.name = "ChAppend"       -> EffAppend(c, a.n, a.t)
       [] a.name = "ChInsert"       -> EffInsert(c, a.n, a.i, a.t)
       [] a.name = "ChRemove"       -> EffRemoveFrom(c, a.n, a.t)
+      [] a.name = "ChRemoveAll"    -> EffRemoveAll(c, a.n, a.key)
       [] a.name = "ChMove"         -> EffMove(c, a.n, a.seq, a.before, a.after)
       [] a.name = "ChSort"         -> EffSort(c, a.n, a.key, a.rev)
       [] a.name = "ChReorder"      -> EffReorder(c, a.n, a.seq)
